@@ -15,6 +15,7 @@ def replay (reuse : Bool) : List String → Slots → Nat → List String → Li
     let e : Env := { reuse := reuse, fresh := nextKey, ser := nextKey + 100, now := acc.length }
     if op.endsWith ":err" then replay reuse rest s nextKey ("-" :: acc)
     else if op = "dropcert" then replay reuse rest { s with crt := none, mta := none } nextKey ("-" :: acc)
+    else if op = "dropall" then replay reuse rest Slots.empty nextKey ("-" :: acc)  -- RevokeCert deleted the assets
     else
       let s' :=
         if op = "obtain" || op = "obtain:noop" then obtain e s
